@@ -1,7 +1,6 @@
 package main
 
 import (
-	"sort"
 	"bytes"
 	"encoding/base64"
 	"encoding/json"
@@ -11,6 +10,8 @@ import (
 	"path/filepath"
 	"reflect"
 	"regexp"
+	"sort"
+	"strconv"
 	"strings"
 
 	"github.com/rkosegi/yaml-toolkit/dom"
@@ -85,6 +86,7 @@ func nullSome(r *rand.Rand, v any) any {
 }
 
 func c13Set(r *rand.Rand) Case {
+	mergeElsewhereWithOptions()
 	o := c13Opts()
 	data := genDoc(r, o)
 	payload := genDoc(r, o)
@@ -348,6 +350,21 @@ func c13TemplateYaml(r *rand.Rand) Case {
 	return Case{Kind: "template-yaml", Desc: map[string]any{"stored": got, "variant": tv.tmpl, "trim": tv.trim, "yaml": tv.yaml}, Fail: fail, Nontrivial: true, Key: fmt.Sprint(r.Int())}
 }
 
+// the first list of a plain document in key order: its pointer and its length
+func findListPath(v any, at []string) ([]string, int, bool) {
+	switch x := v.(type) {
+	case []any:
+		return at, len(x), true
+	case map[string]any:
+		for _, k := range sortedKeys(x) {
+			if p, n, ok := findListPath(x[k], append(append([]string{}, at...), k)); ok {
+				return p, n, true
+			}
+		}
+	}
+	return nil, 0, false
+}
+
 func c13Patch(r *rand.Rand) Case {
 	o := c13Opts()
 	o.nulls = false
@@ -356,6 +373,13 @@ func c13Patch(r *rand.Rand) Case {
 	}
 	data := genDoc(r, o)
 	rp := c09GenOp(r, data, o)
+	if lp, n, ok := findListPath(data, nil); ok && r.Intn(5) == 0 {
+		// the position just past the end of a list (0 for an empty one) is where add / copy / move append
+		rp.Path = append(append([]string{}, lp...), strconv.Itoa(n))
+		if rp.Op == "remove" || rp.Op == "replace" || rp.Op == "test" {
+			rp.Op, rp.HasVal, rp.Val = "add", true, genVal(r, o, 2, false)
+		}
+	}
 	if r.Intn(8) == 0 { // a pointer ending in "/" addresses the member named "" (RFC 6901), not its parent
 		rp.Path = append(append([]string{}, rp.Path...), "")
 	} else if rp.HasFrom && r.Intn(8) == 0 {
